@@ -1413,8 +1413,14 @@ where
         .iter()
         .enumerate()
         .map(|(idx, x)| {
-            let username = demangle_toml_string(x["username"].to_string());
-            let password = demangle_toml_string(x["password"].to_string());
+            // indexing a table with a missing key panics
+            let field = |name: &str| {
+                x.get(name)
+                    .map(|v| demangle_toml_string(v.to_string()))
+                    .unwrap_or_default()
+            };
+            let username = field("username");
+            let password = field("password");
 
             if username.is_empty() {
                 return Err(serde::de::Error::custom(format!(
